@@ -26,7 +26,7 @@ RULE = ("(a) a battery of several hundred queries over notes, intervals, keys, c
         ' Also: the battery contains every public function of the theory modules (introspection), confusable neighbours and keyword forms; histories repeat a query before modifying its last answer; every memo table that is empty at import is cleared per case; a systematic pass modifies the answer of each battery query and re-asks its neighbourhood; fft.find_notes call sequences whose returned notes are modified between calls; in-place edits of the lists / dictionaries that instances hold (incl. the percussion key map); frequency lookups at and above the top of the table; nested [name, octave(, dynamics)] items as arguments, compared deeply; notes handed out by registered tunings are modified. One text note given to 2-3 selected tracks of a composition, then eight kinds of in-place edit of one track (the other tracks must not move). One scale object asked twelve kinds of question in several orders must answer like a fresh object; entries of one from_chords call share no objects.')
 ASSUMPTIONS = ["known memo tables are cleared at the start of every case so that a failing history replays from a cold start",
                "intervals.invert may reverse in place and back: the argument must be unchanged after the call",
-               "Instrument.set_range and chords.from_shorthand's internal second parameter are outside the battery",
+               "chords.from_shorthand's internal second parameter is outside the battery",
                "frequency-table reference = bisect over fft._log_cache (the data, not the lookup algorithm)"]
 
 
